@@ -1,7 +1,7 @@
 SPECIFICATION Spec
 CONSTANTS Steps = 2
-  Lens = {1, 2, 4094, 4095, 4096, 4097, 8191, 8193}
-  Pats = {"n", "l", "k7", "k1"}
+  Lens = {1, 2, 4095, 4096, 4097, 8193}
+  Pats = {"n", "l", "k1"}
   Plans = {"all", "1,all", "EWOULDBLOCK", "2000,EWOULDBLOCK", "EINTR,all", "EPIPE"}
   Afters = {"cycle", "unblock"}
   Sim = FALSE
